@@ -15,6 +15,33 @@ import random
 import re
 
 
+# ----------------------------------------------------------------- the derive's generic error parameter
+GENERIC_ERR = "__Deserr_E"
+
+
+def discover_generic_err(repo):
+    """The catalogue has to spell the type parameter the derive introduces for a container without `error = ..` (marker
+    functions are instantiated with it).  Its name is the derive's private choice: read it from the generator's sources
+    (`parse_quote!(__Deserr_E)`), so that renaming it there does not break the catalogue."""
+    import os
+    counts = {}
+    d = os.path.join(repo, "derive", "src")
+    try:
+        files = [os.path.join(d, f) for f in os.listdir(d) if f.endswith(".rs")]
+    except OSError:
+        return GENERIC_ERR
+    for f in files:
+        try:
+            src = open(f).read()
+        except OSError:
+            continue
+        for m in re.finditer(r"parse_quote!\(\s*(__[A-Za-z0-9_]+)\s*\)", src):
+            counts[m.group(1)] = counts.get(m.group(1), 0) + 1
+    if counts:
+        return max(counts, key=counts.get)
+    return GENERIC_ERR
+
+
 # ----------------------------------------------------------------- reference semantics
 def split_words(ident):
     words = []
@@ -134,8 +161,8 @@ def render_field(t, vname, f, err_ty, out_fns):
         spec["map"] = fn
     if f.missing_fn:
         fn = fn_name(owner, f.ident, "missing")
-        if err_ty == "__Deserr_E":
-            attrs.append("missing_field_error = %s::<__Deserr_E>" % fn)
+        if err_ty == GENERIC_ERR:
+            attrs.append("missing_field_error = %s::<%s>" % (fn, GENERIC_ERR))
             out_fns.append("pub fn %s<E: DeserializeError>(_k: &str, l: ValuePointerRef) -> E { mk_err::<E>(l) }" % fn)
         else:
             attrs.append("missing_field_error = %s" % fn)
@@ -162,7 +189,7 @@ def render_type(t):
     cattrs = []
     spec = {"name": t.name, "err": t.err, "rename_all": t.rename_all, "deny": None, "tag": t.tag,
             "validate": None, "from": None, "try_from": None, "generics": t.generics or []}
-    err_ty = "__Deserr_E" if t.err == "generic" else t.err
+    err_ty = GENERIC_ERR if t.err == "generic" else t.err
     if t.err != "generic":
         cattrs.append("error = %s" % t.err)
     if t.rename_all:
@@ -174,8 +201,8 @@ def render_type(t):
         spec["deny"] = {"kind": "default"}
     elif t.deny == "fn":
         fn = fn_name(t.name, "unknown")
-        if err_ty == "__Deserr_E":
-            cattrs.append("deny_unknown_fields = %s::<__Deserr_E>" % fn)
+        if err_ty == GENERIC_ERR:
+            cattrs.append("deny_unknown_fields = %s::<%s>" % (fn, GENERIC_ERR))
             out_fns.append("pub fn %s<E: DeserializeError>(_k: &str, _a: &[&str], l: ValuePointerRef) -> E { mk_err::<E>(l) }" % fn)
         else:
             cattrs.append("deny_unknown_fields = %s" % fn)
